@@ -13,14 +13,16 @@ import (
 	"sort"
 	"strings"
 	"testing"
+	"time"
 
 	"github.com/pion/logging"
+	"github.com/pion/stun/v3"
 	"pgregory.net/rapid"
 )
 
 var (
 	c19Ifaces    = []string{"", "eth0", "eth1"}
-	c19CIDRs     = []string{"", "10.0.0.0/24", "10.0.0.0/8", "192.168.1.0/24", "fd00::/8", "2001:db8::/32"}
+	c19CIDRs     = []string{"", "10.0.0.0/24", "10.0.0.0/8", "192.168.1.0/24", "fd00::/8", "2001:db8::/32", "0.0.0.0/0", "::/0", "10.0.0.6/32"}
 	c19Locals4   = []string{"10.0.0.5", "10.0.0.6", "10.1.2.3", "192.168.1.7"}
 	c19Locals6   = []string{"fd00::5", "2001:db8::6", "2001:db9::1"}
 	c19Ext4      = []string{"203.0.113.1", "203.0.113.2", "198.51.100.7", "198.51.100.8"}
@@ -693,4 +695,134 @@ func TestVerif_C19_RegressionD9(t *testing.T) {
 		st.Record(vfHash("d9", iface), true, "regression")
 	}
 	st.Sample(func() string { return fmt.Sprintf("rules=%v lookup host/10.0.0.6 with iface \"\", eth0, wlan0", rules) })
+}
+
+// TestVerif_C19_GatherPath: the rules as the gatherer applies them.  A relay allocation is made from every
+// filtered local address; the gatherer looks the rules up with that base address and the name of the interface
+// carrying it, and publishes the relay address rewritten accordingly.  Oracle: the same reference as above,
+// keyed by (relay, base address, interface), applied to the allocated relay address.
+func TestVerif_C19_GatherPath(t *testing.T) {
+	st := vfNewStats(t)
+	lf := logging.NewDefaultLoggerFactory()
+	lf.DefaultLogLevel = logging.LogLevelDisabled
+	rapid.Check(t, func(rt *rapid.T) {
+		rules := rapid.SliceOfN(c19RuleGen(false), 1, 4).Draw(rt, "rules")
+		for i := range rules {
+			if len(rules[i].External) == 0 {
+				rules[i].External = []string{"203.0.113.200"} // (the option refuses empty External lists)
+			}
+			// host and relay candidates are gathered here; other rule types would be refused as ineffective
+			rules[i].AsCandidateType = CandidateTypeHost
+			if rapid.IntRange(0, 3).Draw(rt, "relayRule") != 0 {
+				rules[i].AsCandidateType = CandidateTypeRelay
+			}
+		}
+		// duplicates in External are removed by the option: mirror that
+		norm := make([]c19Rule, len(rules))
+		for i, r := range rules {
+			norm[i] = r
+			seen := map[string]bool{}
+			norm[i].External = nil
+			for _, e := range r.External {
+				if !seen[e] {
+					seen[e] = true
+					norm[i].External = append(norm[i].External, e)
+				}
+			}
+		}
+		ifaceOf := map[string]string{}
+		var ifaces []fnIface
+		for k, name := range []string{"eth0", "eth1"} {
+			n := rapid.IntRange(1, 2).Draw(rt, "addrsOnIface")
+			ifc := fnIface{Name: name, Up: true}
+			for j := 0; j < n; j++ {
+				a := c19Locals4[(2*k+j)%len(c19Locals4)]
+				ifc.Addrs = append(ifc.Addrs, a)
+				ifaceOf[a] = name
+			}
+			ifaces = append(ifaces, ifc)
+		}
+		fn := newFakeNet(ifaces)
+		a, err := NewAgentWithOptions(WithNet(fn), WithLoggerFactory(lf), WithMulticastDNSMode(MulticastDNSModeDisabled),
+			WithCandidateTypes([]CandidateType{CandidateTypeHost, CandidateTypeRelay}), WithNetworkTypes([]NetworkType{NetworkTypeUDP4}),
+			WithInterfaceFilter(func(string) bool { return true }), // filtered path: one allocation per local address
+			WithUrls([]*stun.URI{{Scheme: stun.SchemeTypeTURN, Host: "198.51.100.2", Port: 3478, Proto: stun.ProtoTypeUDP, Username: "u", Password: "p"}}),
+			WithAddressRewriteRules(c19Plain(rules)...))
+		if err != nil {
+			st.Fail(rt, "C19/validation/option-valid-rejected", "NewAgentWithOptions rejected valid rules: %v — %v", err, rules)
+
+			return
+		}
+		a.turnClientFactory = fn.turnFactory
+		defer func() {
+			done := make(chan struct{})
+			go func() { _ = a.Close(); close(done) }()
+			select {
+			case <-done:
+			case <-time.After(20 * time.Second):
+			}
+		}()
+		complete := make(chan struct{}, 1)
+		_ = a.OnCandidate(func(c Candidate) {
+			if c == nil {
+				select {
+				case complete <- struct{}{}:
+				default:
+				}
+			}
+		})
+		if err := a.GatherCandidates(); err != nil {
+			rt.Fatalf("harness: %v", err)
+		}
+		select {
+		case <-complete:
+		case <-time.After(20 * time.Second):
+			st.Inconclusive()
+			rt.Fatalf("VERIF-INCONCLUSIVE: gathering did not complete")
+		}
+		local, _ := a.GetLocalCandidates()
+		got := map[string][]string{} // base address -> published relay addresses
+		for _, c := range local {
+			if c.Type() != CandidateTypeRelay || c.RelatedAddress() == nil {
+				continue
+			}
+			got[c.RelatedAddress().Address] = append(got[c.RelatedAddress().Address], c.Address())
+		}
+		const allocated = "198.51.100.99"
+		nontrivial := false
+		for base, iface := range ifaceOf {
+			ref := c19Reference(norm, CandidateTypeRelay, base, iface)
+			if ref.ambiguous {
+				continue
+			}
+			if ref.matched {
+				nontrivial = true
+			}
+			want, keep := c19ApplyRef(ref, allocated)
+			if !keep {
+				want = nil
+			}
+			alt := c19ReferenceD9(norm, CandidateTypeRelay, base, iface)
+			wantD9, keepD9 := c19ApplyRef(alt, allocated)
+			if !keepD9 {
+				wantD9 = nil
+			}
+			// (published candidates are listed per network type: compare as sets)
+			sorted := func(ss []string) []string { out := c19Norm(ss); sort.Strings(out); return out }
+			have := sorted(got[base])
+			if c19Same(have, sorted(want)) {
+				continue
+			}
+			if c19Same(have, sorted(wantD9)) {
+				st.Fail(rt, c19KnownD9, "relay allocation from %s on %s: published %v, documented precedence gives %v\nrules: %v", base, iface, have, c19Norm(want), rules)
+
+				continue
+			}
+			st.Fail(rt, "C19/gather/relay-address-not-as-documented", "relay allocation from %s on %s: published relay addresses %v, the rules give %v\nrules: %v", base, iface, have, c19Norm(want), rules)
+		}
+		st.Record(vfHash(rules, ifaceOf), nontrivial, fmt.Sprintf("rule-matched:%v", nontrivial))
+		if nontrivial && st.WantSample() {
+			st.Sample(func() string { return fmt.Sprintf("rules=%v locals=%v published=%v", rules, ifaceOf, got) })
+		}
+	})
 }
